@@ -299,7 +299,10 @@ ENTRY_LINES = ['DATA a 0 MD5 d41d8cd98f00b204e9800998ecf8427e',
                'EBUILD x-1.ebuild 5 MD5 22']
 # cleartext lines that are not Manifest entries (gpg dash-escapes some)
 JUNK_LINES = ['- DATA dashed 0', '-----BEGIN PGP SIGNED MESSAGE-----',
-              'junk line', '- - DATA twice 0', 'From here']
+              'junk line', '- - DATA twice 0', 'From here',
+              # one signed line that a text layer may split in two
+              'IGNORE local\rIGNORE more', 'DATA a 0\rDATA cr 0',
+              'IGNORE ff\x0cIGNORE more', 'IGNORE ls\u2028IGNORE more']
 INJECT = ['', ' ', 'DATA injected 0', '- DATA injected2 0', 'Hash: SHA512',
           'Comment: x', S, G, N, '- ' + S, 'garbage', '\t',
           'IGNORE injected3']
@@ -323,7 +326,8 @@ def gpg_case(draw):
             'pos2': draw(st.integers(0, 40)),
             'text': draw(st.sampled_from(INJECT)),
         })
-    return {'lines': lines, 'muts': muts}
+    return {'lines': lines, 'muts': muts,
+            'via': draw(st.sampled_from(['file', 'loader']))}
 
 
 def strat_gpg(tier):
@@ -415,10 +419,19 @@ def run_gpg(desc):
         env = RecordingEnv()
         env.import_key(io.BytesIO(fx['pub']))
         m = ManifestFile()
-        classes = ['mutated' if mutated != signed else 'original']
+        via = desc.get('via', 'file')
+        classes = ['mutated' if mutated != signed else 'original',
+                   'via:' + via]
         try:
-            with open(path, 'r', encoding='utf8') as f:
-                m.load(f, verify_openpgp=True, openpgp_env=env)
+            if via == 'loader':
+                # the way the tree loader opens and reads the file
+                from gemato.recursiveloader import ManifestRecursiveLoader
+                ldr = ManifestRecursiveLoader(path, verify_openpgp=True,
+                                              openpgp_env=env)
+                m = ldr.loaded_manifests['Manifest']
+            else:
+                with open(path, 'r', encoding='utf8') as f:
+                    m.load(f, verify_openpgp=True, openpgp_env=env)
             loaded = True
         except GematoException as e:
             loaded = False
